@@ -1,6 +1,7 @@
 """C09: rcu_radixtree is an exact map over all 64-bit keys, stable addresses, ordered iteration."""
 import sys
 import vlib
+from comp.cxxleaf import check as cxxleaf
 from comp.radix import check as radix
 
 def main():
@@ -9,7 +10,9 @@ def main():
     c.trusted = ["Coq 8.16.1 kernel (coqc; vm_compute only in Examples)"] + radix.TRUSTED
     c.assumptions = radix.ASSUMPTIONS
     c.kind_filter = lambda k: k not in vlib.LIFETIME_KINDS     # lifetime/allocation kinds belong to C16
-    c.prove(["C09"])
+    cxxleaf.run(c, ["radix"])      # leaf functions re-translated from the current source (translator tie)
+    c.trusted = c.trusted + cxxleaf.TRUSTED
+    c.prove(["C09"] + cxxleaf.prop_ids(["radix"]))
     radix.run(c)
     sys.exit(c.finish())
 
